@@ -1,7 +1,9 @@
-(* C08 — decoder is total.  (file grows with proofs/DecoderInv.v) *)
-From Coq Require Import List ZArith NArith Bool.
+(* C08 — decoder is total: for every accepted table and every string it returns a SMILES or raises
+   DecoderError, and the table in force is untouched.  Main theorem proved in proofs/DecoderInv.v. *)
+From Coq Require Import String List ZArith NArith Bool.
 Import ListNotations.
-From Selfies Require Import Base Generated Atoms Grammar Compat Decoder StateFacts DecoderBasics CompatFacts.
+From Selfies Require Import Base Generated Lex Atoms Grammar Compat Decoder Config History StateFacts DecoderBasics CompatFacts ConfigFacts DecoderInv DecoderSum.
+Local Open Scope string_scope.
 Local Open Scope Z_scope.
 
 (* the assertion inside next_branch_state cannot fire where the decoder calls it *)
@@ -22,6 +24,35 @@ Theorem C08_unknown_symbol_is_decoder_error_partial :
   derive T bad aidx (S fuel) ((idx, sym) :: rest) m maxd state prev rings astack nd = Err DecoderError.
 Proof. exact derive_rejects. Qed.
 
+
+(* ---------- the main statement ----------
+   T: any table with the '?' key (set_semantic_constraints accepts no other).  s: ANY list of code points.
+   [digits_ok s] excludes exactly one thing: an atom symbol on which the interpreter's own int()
+   refuses the isotope / H-count / charge digits (more than 4300 of them: known finding F-C08-int-digits);
+   the model has no recursion limit, so RecursionError (known finding F-C08-recursion, raised by the
+   recursive writer at ~1000 nested atoms) is outside this statement and is recorded as modelled-not-proved.
+   compatible=False; the compatible=True front end is covered by the correspondence only. *)
+Theorem C08_decoder_total_partial : forall T s attribute,
+  (exists c, assoc (lit "?") T = Some c) -> digits_ok s ->
+  (exists out, decoder T s false attribute = Ok out) \/ decoder T s false attribute = Err DecoderError.
+Proof. exact decoder_total_ok. Qed.
+
+(* digits_ok is not a hidden assumption about "nice" strings: it holds of garbage too *)
+Example C08_digits_ok_example :
+  digits_ok (lit "[C][=N+1][Branch1][junk][[Ring1].[13CH2-1]]][=C][Ring9][O").
+Proof.
+  intros frag Hin. vm_compute in Hin.
+  repeat (destruct Hin as [<-|Hin]; [repeat constructor; eexists; vm_compute; reflexivity|]).
+  destruct Hin.
+Qed.
+
+(* the table in force is untouched by a decode, whatever its outcome (history model, proofs/ConfigFacts.v) *)
+Theorem C08_table_untouched : forall w x c a, Inv w ->
+  current_dict (w_lib (fst (step w (OpDecode x c a)))) = current_dict (w_lib w).
+Proof. intros w x c a HI. apply step_keeps_current; [exact HI|reflexivity]. Qed.
+
 Print Assumptions C08_branch_assert_unreachable_partial.
 Print Assumptions C08_ring_assert_unreachable_partial.
 Print Assumptions C08_unknown_symbol_is_decoder_error_partial.
+Print Assumptions C08_decoder_total_partial.
+Print Assumptions C08_table_untouched.
